@@ -520,6 +520,24 @@ class TypeChecker:
         self.check_expr(expr.a, rvalue=True)
         expr.lvalue = False
 
+        from_type = self.context.get_type(expr.a.typ)
+        to_type = self.context.get_type(expr.to_type)
+        numeric = (ast.IntegerType, ast.FloatType)
+        address = (ast.IntegerType, ast.PointerType)
+        if not (
+            (isinstance(from_type, numeric) and isinstance(to_type, numeric))
+            or (
+                isinstance(from_type, ast.PointerType)
+                and isinstance(to_type, address)
+            )
+            or (
+                isinstance(from_type, address)
+                and isinstance(to_type, ast.PointerType)
+            )
+        ):
+            raise SemanticError(
+                f"Cannot cast {from_type} to {to_type}", expr.loc
+            )
         expr.typ = expr.to_type
 
     def check_function_call(self, expr):
